@@ -60,6 +60,14 @@ type Options struct {
 	NoParams    bool // keep default Params (CLI sub-domain draws only ContinueOnError)
 	AllowChmod2 bool // allow "chmod perm a b" (several paths)
 	Host        tsmodel.Host
+	// FixedParams, if set, is used instead of drawing Params (batches share one RunT call).
+	FixedParams *tsmodel.Params
+	// PidDir, if set, makes background block helpers record their pid in PidDir/<unique>.
+	PidDir string
+	// Prologue lines are put at the top of every script.
+	Prologue []string
+	// ExtraKinds biases the line generator towards the given line kinds.
+	ExtraKinds []string
 }
 
 // Q quotes a word for a script line when needed.
@@ -210,6 +218,7 @@ func (g *gen) candidate() string {
 	if g.p.CustomCmds {
 		kinds = append(kinds, "probe", "probe", "probe", "failcmd", "cemit", "setenv", "defer", "getenv")
 	}
+	kinds = append(kinds, g.o.ExtraKinds...)
 	k := rapid.SampledFrom(kinds).Draw(t, "kind")
 	if rapid.IntRange(0, 3).Draw(t, "neg") == 0 {
 		neg = "! "
@@ -403,6 +412,9 @@ func (g *gen) candidate() string {
 		if rapid.IntRange(0, 2).Draw(t, "block") == 0 {
 			ready := fmt.Sprintf("ready%d", g.nbg)
 			flags := "--ready=" + ready
+			if g.o.PidDir != "" {
+				flags += fmt.Sprintf(" --pid=%s/p%d-%d", g.o.PidDir, rapid.IntRange(0, 1<<30).Draw(t, "pidtag"), g.nbg)
+			}
 			if rapid.Bool().Draw(t, "eoi") {
 				flags += " --exit-on-int"
 			}
@@ -531,7 +543,9 @@ func (g *gen) simple() string {
 // Gen draws a script.
 func Gen(t *rapid.T, o Options) Script {
 	s := Script{Name: "s"}
-	if !o.NoParams {
+	if o.FixedParams != nil {
+		s.P = *o.FixedParams
+	} else if !o.NoParams {
 		s.P.ContinueOnError = rapid.IntRange(0, 3).Draw(t, "continue") == 0
 		s.P.RequireExplicitExec = rapid.IntRange(0, 4).Draw(t, "explicitexec") == 0
 		s.P.RequireUniqueNames = rapid.IntRange(0, 4).Draw(t, "uniquenames") == 0
@@ -559,6 +573,10 @@ func Gen(t *rapid.T, o Options) Script {
 		failAt = rapid.IntRange(0, n-1).Draw(t, "failat")
 	}
 	var lines []string
+	for _, l := range o.Prologue {
+		g.m.Step(l)
+		lines = append(lines, l)
+	}
 	for i := 0; i < n; i++ {
 		var chosen string
 		for try := 0; try < 6; try++ {
